@@ -275,7 +275,7 @@ def run_property(prop, tier, replay=None):
     extra = {}
     if hasattr(mod, "extra"):
         # E5 / E6 side engines (witnesses, clippy cross reference); thorough tier only unless the module says otherwise
-        for i in mod.extra(tier, REPO, WORK) or []:
+        for i in mod.extra(tier, REPO, WORK, [all_inst[k] for k in order]) or []:
             if i.key not in all_inst:
                 all_inst[i.key] = i
                 order.append(i.key)
